@@ -27,6 +27,8 @@ def run(ctx):
                       "Signal variant of the same meaning (hangup->Hangup, interrupt->Interrupt, quit->Quit, terminate->Terminate, usr1->User1, usr2->User2)")
     ctx.rule("R01.7", "the collector gives up (Ok(None), which ends the action worker) only when the event queue is closed: every such return "
                       "follows a true events.is_closed() test or a recv() error")
+    ctx.rule("R01.8", "wiring: the main task starts when Watchexec::main() notifies the start lock it waits on, and spawns the action worker on the "
+                      "receiving end of the event queue, the fs / signal / keyboard sources on its sending end, and error_hook on the error queue")
     ctx.rule("R01.5", "no silent loss at the sources: a failed send/try_send of an event is reported on the error channel")
     facts = ctx.facts
     try:
@@ -104,6 +106,58 @@ def run(ctx):
                             "Ok(None) is returned only after the queue was seen closed", f.loc(f.line), detail=pathx.show_events(q.ev)[-300:],
                             fail="throttle_collect returns Ok(None) - which ends the action worker and with it event delivery - while the event queue is open")
         ctx.floor("R01.7", "Ok(None) return paths of throttle_collect", n_none, 3)
+    except Skip:
+        pass
+
+    # ---- R01.8 wiring of the main task
+    try:
+        wc = ctx.anchor_fn("R01.8", "watchexec::watchexec::Watchexec::with_config")
+        mt = ctx.anchor_one("R01.8", "main task coroutine", [c for c in facts.children(wc) if c.kind == "coroutine"])
+        spawned = {}
+        first_await = None
+        q0 = None
+        for q in pathx.Enum().paths(thir.root(mt)):
+            q0 = q
+            break
+        for e in (q0.ev if q0 else ()):
+            if e[0] == "await" and first_await is None:
+                first_await = e[1]
+        for c, nd in thir.calls_in(thir.root(mt)):
+            if strip_generics(c).endswith("JoinSet::spawn") and pathx.desc(nd["a"][0]) == "tasks":
+                for c2, n2 in thir.calls_in(nd["a"][1]):
+                    s2 = strip_generics(c2)
+                    if s2.startswith("watchexec::") and (s2.endswith("::worker") or s2.endswith("::error_hook")):
+                        spawned[s2] = [pathx.desc(a) for a in n2["a"]]
+        want = {
+            "watchexec::action::worker::worker": ["Clone::clone(^config)", "Clone::clone(er_s)", "^ev_r"],
+            "watchexec::sources::fs::worker": ["Clone::clone(^config)", "Clone::clone(er_s)", "Clone::clone(^ev_s)"],
+            "watchexec::sources::signal::worker": ["Clone::clone(^config)", "Clone::clone(er_s)", "Clone::clone(^ev_s)"],
+            "watchexec::sources::keyboard::worker": ["Clone::clone(^config)", "Clone::clone(er_s)", "Clone::clone(^ev_s)"],
+            "watchexec::watchexec::error_hook": ["er_r", "Clone::clone(^config.error_handler)"],
+        }
+        for k, v in want.items():
+            ctx.require(spawned.get(k) == v, "R01.8", "spawned:" + k.split("::")[-2] + "::" + k.split("::")[-1], "%s is spawned on the main task's set with %s" % (k, v),
+                        mt.loc(mt.line), detail=str(spawned.get(k)),
+                        fail="%s is %s: events or errors from/to it never flow" % (k, "spawned with %s" % spawned.get(k) if k in spawned else "not spawned by the main task"))
+        ctx.require(first_await == "Notify::notified(^notify)", "R01.8", "waits-for-start", "the main task first waits on the start lock", mt.loc(mt.line), detail=str(first_await))
+        # the two ends of the queues
+        lets = {}
+        for st in thir.walk(thir.root(wc)):
+            if isinstance(st, dict) and st.get("k") == "let" and st["p"].get("k") == "bind" and isinstance(st.get("i"), dict):
+                lets[st["p"]["n"]] = pathx.desc(st["i"])
+        ctx.require(lets.get("start_lock") == "Clone::clone(notify)", "R01.8", "start-lock-shared", "Watchexec keeps a clone of the Notify the main task waits on",
+                    wc.loc(wc.line), detail=str(lets.get("start_lock")))
+        ctx.require(lets.get("event_input") == "Clone::clone(ev_s)", "R01.8", "event-input-shared", "send_event() feeds the same queue the action worker reads",
+                    wc.loc(wc.line), detail=str(lets.get("event_input")))
+        mn = ctx.anchor_fn("R01.8", "watchexec::watchexec::Watchexec::main")
+        calls = [(strip_generics(c), [pathx.desc(a) for a in nd["a"]]) for c, nd in thir.calls_in(thir.root(mn)) if not pathx.is_tracing(nd)]
+        n1 = [a for c, a in calls if c.endswith("Notify::notify_one")]
+        ctx.require(n1 == [["self.start_lock"]], "R01.8", "main-notifies", "Watchexec::main() releases the start lock", mn.loc(mn.line), detail=str(n1),
+                    fail="Watchexec::main() no longer notifies the start lock: the main task never starts")
+        se = ctx.anchor_one("R01.8", "send_event coroutine", [c for c in facts.children(ctx.anchor_fn("R01.8", "watchexec::watchexec::Watchexec::send_event")) if c.kind == "coroutine"])
+        sends = [[pathx.desc(a) for a in nd["a"]] for c, nd in thir.calls_in(thir.root(se)) if strip_generics(c).endswith("async_priority_channel::Sender::send")]
+        ctx.require(len(sends) == 1 and sends[0][0].lstrip("^") == "self.event_input" and [x.lstrip("^") for x in sends[0][1:]] == ["event", "priority"], "R01.8", "send-event",
+                    "send_event() queues the given event at the given priority", se.loc(se.line), detail=str(sends))
     except Skip:
         pass
 
